@@ -397,6 +397,15 @@ def prog_constructors():
     out.append(('SpecificationBase(1)', attempt(lambda: type(SpecificationBase(1)).__name__)))
     out.append(('LookupBase()', attempt(lambda: type(LookupBase()).__name__)))
     out.append(('LookupBase().changed(None)', attempt(lambda: LookupBase().changed(None))))
+    class StrictOverride(LookupBase):
+        # the documented override point, written without a default for the name
+        def _uncached_lookup(self, required, provided, name):
+            return ('found', tuple(required), provided, name)
+    so = StrictOverride()
+    out.append(('override.lookup((1,), 2)', attempt(lambda: so.lookup((1,), 2))))
+    out.append(('override.lookup((1,), 2, "n")', attempt(lambda: so.lookup((1,), 2, 'n'))))
+    out.append(('override.lookup1(1, 2)', attempt(lambda: so.lookup1(1, 2))))
+    out.append(('override.lookup((1, 3), 2)', attempt(lambda: so.lookup((1, 3), 2))))
     out.append(('LookupBase().changed()', attempt(lambda: LookupBase().changed())))
     out.append(('LookupBase().changed(ignored=1)', attempt(lambda: LookupBase().changed(ignored=1))))
     out.append(('LookupBase().changed(1, 2)', attempt(lambda: LookupBase().changed(1, 2))))
